@@ -225,6 +225,10 @@ def rule4_invoke(ctx, v):
         sts = [s for s in g.stores_to(TH + 'result') if same_value(g, s.ops[0], c.id)]
         ctx.ob('C01.4', 'myth_entry_point: return value stored', len(sts) == 1 and all(g.dominates_f(sts[0], k) for k in cl),
                'the return value is stored in result before cleanup', loc=c.loc)
+        for k in cl:
+            ctx.ob('C01.4', 'myth_entry_point: cleans up the thread it started', g.sources(k.args[0]) == th_roots,
+                   'cleanup is applied to the very thread whose entry function ran (read once, before the call: the '
+                   'worker may have changed while the function ran)', loc=k.loc, detail=describe(g, k.args[0]))
         ctx.ob('C01.4', 'myth_entry_point: this_thread from env', all(
             is_load_of(g, r, 'myth_running_env.this_thread') for r in th_roots) and bool(th_roots),
             'the thread being started is env->this_thread', loc=c.loc)
@@ -540,6 +544,12 @@ def run(ctx):
         rule5_join(ctx, v)
         rule6_finish(ctx, v)
         rule7_spin(ctx, fl)
+        # the joiner / finisher must not reuse the worker env obtained before it switched (shared with C12.3)
+        from . import c12
+        ctx.doc('C01.8', 'join / exit / thread entry: no worker-env pointer obtained before a context switch or before the '
+                'user function is used after it (stale-value dataflow, shared with C12.3)')
+        c12.rule3_env(ctx, fl, rule='C01.8', only=['myth_join', 'myth_tryjoin', 'myth_timedjoin', 'myth_exit', 'myth_create_1',
+                                                   'myth_entry_point', 'myth_create_ex', 'myth_create'], units=[(NATIVE, None)])
 
 
 SCHED = 'src/myth_sched_func.h'
@@ -571,6 +581,10 @@ MUTANTS = [
                 "  new_thread->result = (*fn)(new_thread->result);\n  myth_queue_push(&env->runnable_q, this_thread);")]},
     {'name': 'myth_exit forgets to store the exit value', 'expect': 'C01.4',
      'edits': [(SCHED, "  th = env->this_thread;\n  th->result = ret;\n  myth_entry_point_cleanup(th);", "  th = env->this_thread;\n  myth_entry_point_cleanup(th);")]},
+    {'name': 'entry point re-reads the current thread after the user function (seed C01/m3)', 'expect': 'C01.4',
+     'edits': [(SCHED, "  this_thread->result=(*(this_thread->entry_func))(this_thread->result);\n  myth_entry_point_cleanup(this_thread);", "  this_thread->result=(*(this_thread->entry_func))(this_thread->result);\n  myth_entry_point_cleanup(env->this_thread);")]},
+    {'name': 'join releases the record through the env cached before the switch (seed C01/m1)', 'expect': 'C01.8',
+     'edits': [(SCHED, "  myth_join_1(myth_get_current_env_noinline(),th,result);", "  myth_join_1(env,th,result);")]},
     {'name': 'join_2 unlocks before registering the waiter', 'expect': 'C01.5',
      'edits': [(SCHED, "  myth_desc_join_set(th,env->this_thread);\n  myth_spin_unlock_body(&th->lock);\n  //Change current running thread\n  env->this_thread=next_thread;",
                 "  myth_spin_unlock_body(&th->lock);\n  myth_desc_join_set(th,env->this_thread);\n  //Change current running thread\n  env->this_thread=next_thread;")]},
